@@ -78,7 +78,7 @@ def case_gr(ctx, rng):
     from PyMatterSim.static.gr import conditional_gr, gr
     kind = str(rng.choice(["bool", "bool", "float", "float", "complex", "complex64", "vector", "cvector", "symtensor", "tensor", "int"]))
     K = int(rng.integers(1, 4))
-    snaps, inf, cell = gc.static_system(rng, K=K, frames=1, nmin=max(3, K), nmax=40 if kind.endswith("tensor") else 60)
+    snaps, inf, cell = gc.static_system(rng, K=K, frames=1, nmin=max(3, K), nmax=40 if kind.endswith("tensor") else 60, big=not kind.endswith("tensor"))
     s = snaps.snapshots[0]
     d, N = inf["d"], inf["N"]
     types = s.particle_type
@@ -174,7 +174,7 @@ def case_sq(ctx, rng):
     kind = str(rng.choice(["bool", "bool", "float", "complex", "vector", "int"]))
     K = int(rng.integers(1, 4))
     d = int(rng.choice([2, 3]))
-    snaps, inf, cell = gc.static_system(rng, d=d, K=K, cellkind="ortho", frames=1, nmin=max(3, K), nmax=60)
+    snaps, inf, cell = gc.static_system(rng, d=d, K=K, cellkind="ortho", frames=1, nmin=max(3, K), nmax=60, big=True)
     s = snaps.snapshots[0]
     N = inf["N"]
     types = s.particle_type
